@@ -39,7 +39,8 @@ ASSUMPTIONS = [
     "forced RDKit path on metal-containing strings: only atoms/bonds/pi/stereo/classes are compared (charge and multiplicity through RDKit's radical count are not meaningful for metals and Molecule never takes that path)",
 ]
 RULE = ("one case = one generated SMILES x one build path (init_smiles forced, init_organic_smiles forced, Molecule constructor; plus explicit charge/mult variants). "
-        "SMILES: every special string of each input class (single atoms, >=8-membered rings, metals incl. 9-coordinate, fused/aromatic rings, biphenyl linkers, Kekule rings, "
+        "SMILES: every special string of each input class (single atoms, >=8-membered rings, metals with one- and two-letter symbols and odd/even electron counts, "
+        "9-coordinate centres with implicit/bracket/explicit hydrogens (builder failure), quadruple '$' bonds, fused/aromatic rings, biphenyl linkers, Kekule rings, "
         "charged, radicals incl. odd poly-radical, tetrahedral and double-bond stereo incl. marks on non-stereocentres, atom classes, explicit [H]) plus random template x substituent "
         "combinations; a case is non-trivial when the molecule has >1 atom; distinct by (SMILES, path, charge, mult)")
 
@@ -69,7 +70,29 @@ SPECIALS = [
     ("F/C=C\\F", ["db-stereo"]),
     ("[CH2]C[CH2]", ["radical"]),
     ("C[CH2]", ["radical"]),
-    # ---- thorough tier continues (quick takes the first 16) ----
+    # one-letter metal symbols (K, V, W, Y, U) and two-letter ones, odd and even electron counts
+    ("Cl[V](Cl)(Cl)Cl", ["metal", "metal-1letter", "odd-electrons"]),
+    ("Cl[W](Cl)(Cl)(Cl)Cl", ["metal", "metal-1letter", "odd-electrons"]),
+    ("Cl[V](Cl)Cl", ["metal", "metal-1letter"]),
+    ("Cl[Y](Cl)Cl", ["metal", "metal-1letter"]),
+    ("[K+]", ["metal", "metal-1letter", "single-atom", "charged"]),
+    ("[U]", ["metal", "metal-1letter", "single-atom"]),
+    ("Cl[Ti](Cl)Cl", ["metal", "odd-electrons"]),
+    # coordination number 9: Builder.build fails, hydrogens implicit (CH3) and in the bracket (H9)
+    ("C[Fe](C)(C)(C)(C)(C)(C)(C)C", ["metal", "build-fails", "odd-electrons"]),
+    ("[ReH9-2]", ["metal", "build-fails", "charged"]),
+    # quadruple bonds
+    ("[Mo]$[Mo]", ["metal", "quadruple"]),
+    ("Cl[Re-](Cl)(Cl)(Cl)$[Re-](Cl)(Cl)(Cl)Cl", ["metal", "quadruple", "charged"]),
+    ("CC(=O)O[Cr]$[Cr]OC(C)=O", ["metal", "quadruple"]),
+    # ---- thorough tier continues (quick takes the first 28) ----
+    ("C[W](C)(C)(C)C", ["metal", "metal-1letter", "odd-electrons"]), ("[K]", ["metal", "metal-1letter", "single-atom", "odd-electrons"]),
+    ("[V]", ["metal", "metal-1letter", "single-atom", "odd-electrons"]), ("[W]", ["metal", "metal-1letter", "single-atom"]),
+    ("[Y]", ["metal", "metal-1letter", "single-atom", "odd-electrons"]), ("C[K]", ["metal", "metal-1letter"]), ("Cl[Y]Cl", ["metal", "metal-1letter", "odd-electrons"]),
+    ("Cl[W](Cl)(Cl)(Cl)(Cl)Cl", ["metal", "metal-1letter"]), ("O=[V](Cl)(Cl)Cl", ["metal", "metal-1letter"]), ("Cl[Co](Cl)Cl", ["metal"]), ("Cl[Mn]Cl", ["metal", "odd-electrons"]),
+    ("[CH3:1][Fe](C)(C)(C)(C)(C)(C)(C)C", ["metal", "build-fails", "class"]), ("O[La](O)(O)(O)(O)(O)(O)(O)O", ["metal", "build-fails"]),
+    ("[H][Re-2]([H])([H])([H])([H])([H])([H])([H])[H]", ["metal", "build-fails", "explicit-H", "charged"]),
+    ("[W]$[W]", ["metal", "metal-1letter", "quadruple"]), ("C[Mo](C)$[Mo](C)C", ["metal", "quadruple"]), ("Cl[Cr]$[Cr]Cl", ["metal", "quadruple"]),
     ("[H]", ["single-atom"]), ("C", ["single-atom"]), ("[Na+]", ["metal", "single-atom", "charged"]), ("[F-]", ["single-atom", "charged"]),
     ("O", ["single-atom"]), ("[OH-]", ["charged"]), ("[NH4+]", ["charged"]), ("[H][H]", ["explicit-H"]),
     ("C1CCCCCCCC1", ["ring8"]), ("O=C1CCCCCCCCC1", ["ring8"]), ("C1CCCCCCC1[CH3:2]", ["ring8", "class"]), ("C1CCCCCCC/C=C/1", ["ring8", "db-stereo"]),
@@ -89,7 +112,7 @@ SPECIALS = [
     ("[CH3:1]C(=O)[OH:2]", ["class"]), ("[CH2:7]=O", ["class"]), ("c1cc[cH:4]cc1", ["class", "aromatic"]),
     ("CS(=O)(=O)C", []), ("CP(C)C", []), ("C#N", []), ("CC#CC", []), ("[O-][N+](=O)c1ccccc1", ["charged", "aromatic"]), ("C[NH3+]", ["charged"]),
 ]
-N_QUICK_SPECIALS = 16
+N_QUICK_SPECIALS = 28
 
 TEMPLATES = [
     ("{R}C(=O)O", []), ("{R}C#N", []), ("{R}C(=O)N{S}", []), ("c1ccc({R})cc1", ["aromatic"]), ("{R}c1ccc({S})cc1", ["aromatic"]),
@@ -98,7 +121,7 @@ TEMPLATES = [
     ("{T}[C@H](F)Cl", ["tet-stereo"]), ("{T}[C@@H](F)Cl", ["tet-stereo"]), ("C[C@@H]({U})N", ["tet-stereo"]),
     ("{R}C(=O)[O-]", ["charged"]), ("{R}[NH2+]{S}", ["charged"]), ("{R}C1CCCCCCC1", ["ring8"]), ("{R}c1ccoc1", ["aromatic"]),
     ("{R}C1=CC=CC=C1", ["kekule"]), ("{R}C(C)=C{S}", []), ("{R}OC(=O){S}", []), ("{R}[Zn]{S}", ["metal"]), ("{R}S(=O)(=O){S}", []),
-    ("{R}C1CC2CCC1C2", ["fused"]),
+    ("{R}C1CC2CCC1C2", ["fused"]), ("{R}[Mo]$[Mo]{S}", ["metal", "quadruple"]), ("{R}[V]{S}", ["metal", "metal-1letter"]),
 ]
 SUBS = ["C", "CC", "O", "N", "F", "Cl", "Br", "C(C)C", "C=C", "C#C", "CO", "C(=O)C", "[CH3:1]", "[CH2:2]C", "C2CC2", "c2ccccc2", "CS", "CCC"]
 SUBS_T = ["C", "CC", "O", "N", "Br", "C=C", "[CH3:6]", "c2ccccc2"]       # keeps {T}[C@H](F)Cl a genuine centre
@@ -108,7 +131,7 @@ SUBS_U = ["CC", "O", "F", "Cl", "C=C", "c2ccccc2", "C(=O)O"]              # keep
 def gen_smiles(ctx):
     specials = SPECIALS[:N_QUICK_SPECIALS] if ctx.quick else SPECIALS
     out = [(s, list(t) + ["special"]) for s, t in specials]
-    n_random = 30 if ctx.quick else 260
+    n_random = 24 if ctx.quick else 260
     seen = {s for s, _ in out}
     tries = 0
     while len(out) < len(specials) + n_random and tries < 20 * n_random:
@@ -412,7 +435,8 @@ def property_failures(smiles, tags, ref, path, r, is_metal):
         else:
             add("atoms", f"atoms {o['atoms']} but the SMILES denotes {ref['atoms']} (heavy atoms in order, then one H per implicit hydrogen)")
     atoms_ok = o["atoms"] == ref["atoms"]
-    check_cm = not (is_metal and rdkit_site)
+    # a forced RDKit path on a metal string is compared on the graph only; the constructor always in full
+    check_cm = path == "ctor" or not (is_metal and rdkit_site)
     if check_cm and o["charge"] != ref["charge"]:
         add("charge", f"charge {o['charge']} but the SMILES denotes {ref['charge']}")
     if check_cm and o["mult"] != ref["mult"]:
